@@ -179,6 +179,12 @@ def shape_cases(rng, shape_ix, ndocs):
         decls = [{"name": "k", "match": ALLNODES, "use": lit("v"), "mod": "main"},
                  {"name": "j", "match": P(step("attribute", T_ANY)), "use": fn("name"), "mod": "main"},
                  {"name": "N", "match": P(step("child", T_ANY)), "use": fn("count", P(step("attribute", T_ANY))), "mod": rng.choice(["main", "imp"])}]
+        if j % 2:
+            # further declarations of the SAME names that give the same nodes the same values again, by values that are strings / numbers
+            # (12.2: a node has the key value once, however many declarations say so)
+            decls += [{"name": "k", "match": P(step("child", T_ANY)), "use": fn("concat", lit("v"), lit("")), "mod": rng.choice(["main", "imp"])},
+                      {"name": "j", "match": P(step("attribute", T_ANY)), "use": fn("local-name"), "mod": "main"},
+                      {"name": "N", "match": P(step("child", T_ANY)), "use": fn("string", fn("count", P(step("attribute", T_ANY)))), "mod": "main"}]
         lks = [{"name": "k", "arg": lit("v"), "where": "main"}, {"name": "j", "arg": lit(rng.choice("xyz")), "where": "main"},
                {"name": "N", "arg": num(rng.randint(0, 2)), "where": "main"},
                {"name": "k", "arg": lit("v"), "where": "other"}, {"name": "j", "arg": path([dict(DOS), step("attribute", T_ANY)], abs_=True), "where": "other"},
